@@ -589,10 +589,10 @@ def rule_py_headers(out):
             out.undecided(rid, key + "/paths", pos(rel, r), "cannot enumerate the paths of the reader's constructor")
         else:
             for which, marker in (("magic", "MAGIC_BYTES"), ("version", "CURRENT_BINARY_FORMAT_VERSION")):
-                bad = [p for p in ok_paths if not p.asserts_equal(marker)]
+                bad = [p for p in ok_paths if not p.asserts_equal_whole(marker)]
                 out.check(not bad, rid, "%s/%s compared with !=" % (key, which), pos(rel, r), "every path that completes has %s == the expected value" % which,
                           "the constructor can complete without the %s having been found equal to %s: some foreign streams are accepted" % (which, marker))
-            bad = [p for p in ok_paths if not (p.asserts_equal("expected_schema") or p.asserts_falsy("expected_schema") or p.denies_and("expected_schema"))]
+            bad = [p for p in ok_paths if not (p.asserts_equal_whole("expected_schema") or p.asserts_falsy("expected_schema") or p.denies_and("expected_schema"))]
             out.check(not bad, rid, key + "/schema compared with !=", pos(rel, r), "every path that completes has the stored schema equal to the expected one, or no expected schema was given",
                       "the constructor can complete although an expected schema was given and the stream's schema was not found equal to it")
             order_ok = all(p.order_of(["MAGIC_BYTES", "CURRENT_BINARY_FORMAT_VERSION", "expected_schema"]) for p in ok_paths)
@@ -613,10 +613,23 @@ def rule_py_headers(out):
             bad = [p for p in ok_paths if not p.asserts_membership("yardl")]
             out.check(not bad, rid, key + "/yardl key check", pos(rel2, r2), "every path that completes found the 'yardl' key in the first line",
                       "the constructor can complete without the first line having a 'yardl' entry")
-            bad = [p for p in ok_paths if not p.asserts_equal("CURRENT_NDJSON_FORMAT_VERSION")]
+            bad = [p for p in ok_paths if not p.asserts_equal_whole("CURRENT_NDJSON_FORMAT_VERSION")]
             out.check(not bad, rid, key + "/version check", pos(rel2, r2), "mismatch raises", "the constructor can complete with a format version other than CURRENT_NDJSON_FORMAT_VERSION")
-            bad = [p for p in ok_paths if not p.asserts_equal("json.loads(schema)")]
-            out.check(not bad, rid, key + "/schema check", pos(rel2, r2), "mismatch raises", "the constructor can complete although the header's schema was not found equal to the protocol's schema")
+            bad = [p for p in ok_paths if not p.asserts_equal_whole("json.loads(schema)")]
+            out.check(not bad, rid, key + "/schema check", pos(rel2, r2), "mismatch raises: the whole parsed schema (protocol and type definitions) is compared",
+                      "the constructor can complete although the header's schema was not found equal to the WHOLE schema of the protocol (a comparison of a part, e.g. only the protocol entry, lets a stream with different record/enum/alias definitions through)")
+
+
+def _py_balanced(s):
+    d = 0
+    for ch in s:
+        if ch in "([{":
+            d += 1
+        elif ch in ")]}":
+            d -= 1
+            if d < 0:
+                return False
+    return d == 0
 
 
 class PyPath:
@@ -662,6 +675,23 @@ class PyPath:
 
     def asserts_equal(self, marker):
         return any(marker in a or marker in b for a, b, _ in self._eq_literals())
+
+    def asserts_equal_whole(self, marker):
+        """some comparison known to hold with equality has `marker` itself as one operand — not a projection,
+        slice or element of it (directly or through single-assignment locals)"""
+        def norm(t):
+            t = t.replace(" ", "").replace("\n", "")
+            while t.startswith("(") and t.endswith(")") and _py_balanced(t[1:-1]):
+                t = t[1:-1]
+            return t
+        want = norm(marker)
+        for i, (t, val) in enumerate(self.lits):
+            if isinstance(t, ast.Compare) and len(t.ops) == 1:
+                if (isinstance(t.ops[0], ast.Eq) and val) or (isinstance(t.ops[0], ast.NotEq) and not val):
+                    for side in (t.left, t.comparators[0]):
+                        if norm(ast.unparse(side)) == want or norm(self._expand(side)) == want:
+                            return True
+        return False
 
     def asserts_ge(self, a, b):
         """a >= b is known on this path (a, b: markers of the operand texts)"""
@@ -1199,14 +1229,57 @@ def rule_union_dispatch(out):
         else:
             out.undecided(rid, key, pos(rel, fn), "cannot find how the untagged case is selected")
 
+
+# ----------------------------------------------------------------------------------
+# PH2: the schema travels as text whose key order matters (the C++ NDJSON reader compares ordered JSON,
+# generated readers compare the parsed header with their literal): the Python NDJSON writer must serialise
+# objects in insertion order and parse the schema literal without a reordering hook.
+# ----------------------------------------------------------------------------------
+
+def rule_ndjson_key_order(out):
+    rid = "PH2"
+    out.rule(rid, "_ndjson.py: every json.dump/json.dumps of the writer keeps insertion order (no sort_keys, no custom encoder hook), json.loads of the schema literal has no "
+                  "object hook, and the header object is {'yardl': {'version', 'schema'}} with the parsed schema as is", 3)
+    tree, rel = parse_py(out, "_ndjson.py")
+    cls = classes(tree).get("NDJsonProtocolWriter")
+    if cls is None:
+        out.undecided(rid, "anchor/NDJsonProtocolWriter", rel, "class not found")
+        return
+    allowed = {"ensure_ascii", "separators", "check_circular", "allow_nan", "indent"}
+    n = 0
+    for mname, fn in methods(cls).items():
+        for node in ast.walk(fn):
+            if isinstance(node, ast.Call) and ast.unparse(node.func) in ("json.dump", "json.dumps"):
+                n += 1
+                extra = sorted(k.arg or "**" for k in node.keywords if (k.arg not in allowed) and not (k.arg == "sort_keys" and isinstance(k.value, ast.Constant) and k.value.value is False))
+                out.check(not extra, rid, "NDJsonProtocolWriter.%s/%s options" % (mname, ast.unparse(node.func)), pos(rel, node), "order-preserving options only",
+                          "serialises with %s: the header's schema text is no longer the schema literal's key order, which the C++ reader (ordered JSON comparison) and the format description rely on" % ", ".join(extra))
+            if isinstance(node, ast.Call) and ast.unparse(node.func) == "json.loads":
+                n += 1
+                hooks = [k.arg for k in node.keywords if k.arg in ("object_hook", "object_pairs_hook", "cls")]
+                out.check(not hooks, rid, "NDJsonProtocolWriter.%s/json.loads(schema)" % mname, pos(rel, node), "plain json.loads", "the schema literal is parsed with %s" % hooks)
+    init = methods(cls).get("__init__")
+    hdr_ok = False
+    if init is not None:
+        for node in ast.walk(init):
+            if isinstance(node, ast.Dict) and len(node.keys) == 1 and isinstance(node.keys[0], ast.Constant) and node.keys[0].value == "yardl" and isinstance(node.values[0], ast.Dict):
+                inner = node.values[0]
+                ks = [k.value for k in inner.keys if isinstance(k, ast.Constant)]
+                vals = {k.value: ast.unparse(v) for k, v in zip(inner.keys, inner.values) if isinstance(k, ast.Constant)}
+                hdr_ok = ks == ["version", "schema"] and vals.get("schema", "").replace(" ", "") == "json.loads(schema)"
+    out.check(hdr_ok, rid, "NDJsonProtocolWriter.__init__/header object", pos(rel, init) if init is not None else rel, "{'yardl': {'version': …, 'schema': json.loads(schema)}}",
+              "the header line is not {'yardl': {'version', 'schema': json.loads(schema)}}")
+    if n == 0:
+        out.undecided(rid, "NDJsonProtocolWriter/json calls", rel, "no json.dump / json.loads found in the writer")
+
 RULES = {
     "C02": [rule_json_kinds, rule_ndjson_sentinel, rule_union_dispatch],
     "C03": [rule_link, rule_py_wire_table, rule_py_capacity, rule_py_no_alias],
     "C08": [rule_link],
-    "C15": [rule_py_headers],
+    "C15": [rule_py_headers, rule_ndjson_key_order],
     "C16": [rule_py_eof],
     "C17": [rule_py_stream_blocks],
-    "C04": [rule_py_headers, rule_py_write_order],
+    "C04": [rule_py_headers, rule_py_write_order, rule_ndjson_key_order],
     "C01": [rule_py_wire_table, rule_py_stream_blocks, rule_py_write_order],
 }
 
